@@ -1500,7 +1500,15 @@ func candidates(s tstate) []tstate {
 		from := 1
 		switch {
 		case c >= 0xa0 && c <= 0xbf:
-			continue // fixstr: handled by renaming
+			// fixstr: names are handled by renaming; only non-ASCII bytes are canonicalised (to 0x80)
+			for i := 1; i < len(l.n.b); i++ {
+				if l.n.b[i] > 0x80 {
+					nb := append([]byte{}, l.n.b...)
+					nb[i] = 0x80
+					mk(l.path, func(*node) []*node { return []*node{L(nb...)} })
+				}
+			}
+			continue
 		case c == 0xc4 || c == 0xd9:
 			from = 2
 		case c == 0xc5 || c == 0xda:
